@@ -17,7 +17,7 @@ pub open spec fn has_denom(cs: Seq<Coin>, denom: Seq<char>) -> bool {
 pub fn aggregate_coins(coins: Vec<Coin>) -> (r: Result<Vec<Coin>, StdError>)
     ensures match r {
         Ok(v) => denoms_distinct(v@)
-            && (forall|d: Seq<char>| coin_sum(v@, d) == #[trigger] coin_sum(coins@, d))
+            && (forall|d: Seq<char>| #![trigger coin_sum(v@, d)] #![trigger coin_sum(coins@, d)] coin_sum(v@, d) == coin_sum(coins@, d))
             && (forall|i: int| 0 <= i < v@.len() ==> has_denom(coins@, #[trigger] v@[i].denom@))
             && (forall|k: int| 0 <= k < coins@.len() ==> has_denom(v@, #[trigger] coins@[k].denom@))
             && (coins@.len() > 0 ==> v@.len() > 0) && v@.len() <= coins@.len(),
